@@ -24,7 +24,7 @@ var kindTypes = map[string]reflect.Type{
 	"uint": reflect.TypeOf(uint(0)), "uint8": reflect.TypeOf(uint8(0)), "uint16": reflect.TypeOf(uint16(0)),
 	"uint32": reflect.TypeOf(uint32(0)), "uint64": reflect.TypeOf(uint64(0)),
 	"float32": reflect.TypeOf(float32(0)), "float64": reflect.TypeOf(float64(0)),
-	"duration": reflect.TypeOf(time.Duration(0)),
+	"duration":   reflect.TypeOf(time.Duration(0)),
 	"named-int8": reflect.TypeOf(namedInt8(0)), "named-uint16": reflect.TypeOf(namedUint16(0)),
 	"named-float32": reflect.TypeOf(namedFloat32(0)), "named-string": reflect.TypeOf(namedString("")),
 	"named-bool": reflect.TypeOf(namedBool(false)),
